@@ -555,6 +555,25 @@ Fixpoint alt_ri (ex : list exon) (ue ds : Z) : option (list exon) :=
   | [] => None
   end.
 
+(* Imposing one junction ue -> ds on a transcript whose exons do NOT lie next to each other at the junction (exons of the
+   transcript inside the new junction, or the far end of the junction inside an exon): the exon holding ue is cut at ue,
+   every exon in between is dropped, the exon holding ds starts at ds.  This is the alternative isoform of the
+   'interjacent' shapes (SE skipping junction over several exons, A5SS/A3SS short site with an extra exon in the intron);
+   the theorems of Props/C16.v cover the adjacent shapes (alt_se, alt_ss, alt_ri, alt_mxe), the interjacent ones are
+   checked by the declarative python check (harness/props/c16.py:impose_junction) and the model correspondence. *)
+Fixpoint enter_at (l : list exon) (ds : Z) : option (list exon) :=
+  match l with
+  | [] => None
+  | b :: t => if (fst b <=? ds) && (ds <? snd b) then Some ((ds, snd b) :: t) else enter_at t ds
+  end.
+Fixpoint impose_junction (ex : list exon) (ue ds : Z) : option (list exon) :=
+  match ex with
+  | [] => None
+  | a :: t =>
+      if (fst a <? ue) && (ue <=? snd a) && (ue <? ds) then option_map (cons (fst a, ue)) (enter_at t ds)
+      else option_map (cons a) (impose_junction t ue ds)
+  end.
+
 (* ------------------------------------------------------------------ CLI aggregation (parse_rmats) *)
 (* variants[tx_id] is a set: first inserted wins among records that are == with equal hash *)
 Definition same_key_tx (a b : rec) : bool := (r_tx a =? r_tx b) && same_key a b.
